@@ -74,9 +74,15 @@ impl String {
     #[verifier::external_body]
     pub fn is_empty(&self) -> (r: bool) ensures r == (self.b@.len() == 0) { unimplemented!() }
     #[verifier::external_body]
+    pub fn is_ascii(&self) -> (r: bool) ensures r == ascii(self.b@) { unimplemented!() }
+    #[verifier::external_body]
     pub fn shrink_to_fit(&mut self) ensures final(self).b@ == old(self).b@ { unimplemented!() }
 }
 impl str {
+    #[verifier::external_body]
+    pub fn is_ascii(&self) -> (r: bool) ensures r == ascii(self.b@) { unimplemented!() }
+    #[verifier::external_body]
+    pub fn is_empty(&self) -> (r: bool) ensures r == (self.b@.len() == 0) { unimplemented!() }
     #[verifier::external_body]
     pub fn len(&self) -> (r: usize) ensures r == self.b@.len(), r <= isize::MAX { unimplemented!() }
 }
